@@ -429,9 +429,11 @@ func sameListLen(fa *Flow, list ssa.Value, k string) bool {
 // perViewList: every element that can be in list was appended under t.View == timeout.View
 // (loop idiom), or list is the result of filtering with that predicate.
 func perViewList(fa *Flow, list ssa.Value) (bool, string) {
-	// collect append calls feeding the list
+	// collect append calls feeding the list (also inside a private helper of the package that builds it)
 	var appends []*ssa.Call
 	cloneAll := false
+	sliceEnterHelpers, sliceProg = funcPkgPath(fa.Fn), fa.P
+	defer func() { sliceEnterHelpers, sliceProg = "", nil }()
 	backwardSlice(list, func(v ssa.Value) bool {
 		if call, ok := v.(*ssa.Call); ok {
 			if b, ok := call.Call.Value.(*ssa.Builtin); ok && b.Name() == "append" {
@@ -443,8 +445,10 @@ func perViewList(fa *Flow, list ssa.Value) (bool, string) {
 		}
 		// a load of the collector's whole slice
 		if u, ok := v.(*ssa.UnOp); ok {
-			if fad, ok := u.X.(*ssa.FieldAddr); ok && fa.K.Key(fad) == "&"+kTCField && v == list {
-				cloneAll = true
+			if fad, ok := u.X.(*ssa.FieldAddr); ok && v == list {
+				if in, isIn := v.(ssa.Instruction); isIn && in.Parent() == fa.Fn && fa.K.Key(fad) == "&"+kTCField {
+					cloneAll = true
+				}
 			}
 		}
 		return false
@@ -453,11 +457,44 @@ func perViewList(fa *Flow, list ssa.Value) (bool, string) {
 		return false, ""
 	}
 	for _, ap := range appends {
-		facts := fa.At(ap)
+		owner := ap.Parent()
+		fl := fa
+		toRoot := func(k string) string { return k }
+		if owner != fa.Fn {
+			fl = NewFlow(fa.P, owner)
+			var args []string
+			for _, s := range callsIn(fa.Fn, false, func(cc *ssa.CallCommon) bool { return calleeIs(cc, owner) }) {
+				args = nil
+				for _, a := range s.Common().Args {
+					args = append(args, fa.K.Key(a))
+				}
+			}
+			toRoot = func(k string) string {
+				return paramRe.ReplaceAllStringFunc(k, func(m string) string {
+					i := 0
+					for _, ch := range m[1:] {
+						i = i*10 + int(ch-'0')
+					}
+					if i < len(args) {
+						return args[i]
+					}
+					return m
+				})
+			}
+		}
+		facts := fl.At(ap)
 		// the appended element t (an element of the collector's slice) has t.View == timeout.View
-		ok := hasCmp(facts, "==", func(k string) bool {
-			return strings.HasSuffix(k, "."+kTOMsg+"View") && strings.HasPrefix(k, kTCField+"[")
-		}, is("p1."+kTOMsg+"View"))
+		ok := false
+		for f := range facts {
+			if f.Op != "==" {
+				continue
+			}
+			l, r := toRoot(f.L), toRoot(f.R)
+			isElem := func(k string) bool { return strings.HasSuffix(k, "."+kTOMsg+"View") && strings.HasPrefix(k, kTCField+"[") }
+			if (isElem(l) && r == "p1."+kTOMsg+"View") || (isElem(r) && l == "p1."+kTOMsg+"View") {
+				ok = true
+			}
+		}
 		if !ok {
 			return false, ""
 		}
